@@ -18,6 +18,8 @@ def setup(w, name=""):
                 ") -> Result<(SavedFd, Option<ExitStatus>), Error>\nwhere\n    S: Close + Dup + Fcntl + Fstat + Open + 'static,\n{")
     w.transform(T2, RS, "match here_doc::open_fd(env, content).await {",
                 "match verif_c09_redir::open_here_doc_fd(env, content).await {")
+    w.transform("T6' MIN_INTERNAL_FD scaled 10 -> 4 (descriptor world of 6)", "yash-env/src/io.rs",
+                "pub const MIN_INTERNAL_FD: Fd = Fd(10);", "pub const MIN_INTERNAL_FD: Fd = Fd(4);")
     w.inject(RS, "c09_redir.rs")
     return core.KaniSession(w, w.ws, pkg="yash-semantics", tag="sem", zflags=["stubbing"])
 
